@@ -458,7 +458,33 @@ fn e1_scenario(name: &str, threads: Vec<Vec<Op>>) -> Scenario<S> {
                     }
                 }
             };
-            if !vsched::linearizable(n, &call, &ret, St { m: BTreeMap::new(), used: vec![] }, &apply) {
+            // `clear()` empties the three per-kind maps one after the other; the property promises an atomic map PER
+            // KIND, so a clear call is three atomic steps (one per kind, in any order) inside the call's interval, not
+            // one step across kinds. (Judging it as one step was a false alarm of this check at preemption bound 3:
+            // gauges cleared, a histogram created by another thread, histograms cleared.)
+            let mut vop: Vec<(usize, Option<Kind>)> = Vec::new();
+            for i in 0..n {
+                if matches!(flat2[i], Op::Clear) {
+                    for k in [Kind::C, Kind::G, Kind::H] {
+                        vop.push((i, Some(k)));
+                    }
+                } else {
+                    vop.push((i, None));
+                }
+            }
+            let vcall: Vec<usize> = vop.iter().map(|v| call[v.0]).collect();
+            let vret: Vec<usize> = vop.iter().map(|v| ret[v.0]).collect();
+            let vapply = |st: &St, vi: usize| -> Option<St> {
+                match vop[vi] {
+                    (i, None) => apply(st, i),
+                    (_, Some(kind)) => {
+                        let mut st = st.clone();
+                        st.m.retain(|(k, _), _| *k != kind);
+                        Some(st)
+                    }
+                }
+            };
+            if !vsched::linearizable(vop.len(), &vcall, &vret, St { m: BTreeMap::new(), used: vec![] }, &vapply) {
                 return fail("registry-history-not-linearizable", format!("no sequential order of the single-map reference explains the results {:?} of {:?}", result, flat));
             }
             // at quiescence: constructions == distinct ids handed out, listing == what get returns
